@@ -54,7 +54,8 @@ fn with_layouts(a: &[i32], mut f: impl FnMut(&str, ArrayViewMut1<i32>)) -> bool 
 fn large_arrays(cfg: &Cfg, count: usize, salt: u64, mut f: impl FnMut(&[i32])) {
     let mut rng = Lcg(cfg.seed.wrapping_mul(1315423911).wrapping_add(salt));
     for k in 0..count {
-        let n = 8 + rng.below(41);
+        // mostly 8..=48; every 10th array is "huge" (150..=650) for thresholds such as `if n >= 128`
+        let n = if k % 10 == 9 { 150 + rng.below(501) } else { 8 + rng.below(41) };
         let spread = [2usize, 3, 5, n, 4 * n][k % 5];
         let mut a: Vec<i32> = (0..n).map(|_| rng.below(spread) as i32).collect();
         match k % 7 { 0 => a.sort(), 1 => { a.sort(); a.reverse(); } 2 => { let m = a[0]; for x in a.iter_mut().skip(n / 2) { *x = m; } } _ => {} }
